@@ -49,7 +49,10 @@ def root_class(r):
             and isinstance(value, list) and value[:2] == ["tup", "false"]):
         # the known design-level finding is about element types without any value (`!` inside);
         # a placeholder outside an INHABITED element type is a different matter
-        return "exhausted-iterator-junk" if "never" in sexp_str(static) else "exhausted-iterator-placeholder"
+        # (`()` as the placeholder is what `Variable::of_type(T).unwrap_or(Void)` yields for such a T, also
+        # when the iterator is then used at a wider static type, e.g. `[]~ $||`)
+        junk = "never" in sexp_str(static) or (len(value) > 2 and value[2] == "unit")
+        return "exhausted-iterator-junk" if junk else "exhausted-iterator-placeholder"
     return "%s/%s" % (kind, sexp_str(static) if isinstance(static, list) else static)
 
 
@@ -67,7 +70,35 @@ def hide_constants(stmts):
             return [h(x) for x in e]
         return e
     hc = ("fndecl", "hc", [("v", ("int",))], ("int",), [("return", ("id", "v"))])
-    return [hc] + [h(s) for s in stmts]
+    return [hc] + [hide_captured(h(s), False) for s in stmts]
+
+
+FALLIBLE_RHS = ("div", "mod", "shl", "shr", "pow")
+
+
+def hide_captured(e, infn):
+    """inside function bodies, a name read as the right operand of a fallible operator, as an index or as
+    a repeat count is wrapped in hc(..) too: closure creation folds operations on CAPTURED values as well
+    as on literals (finding F07), and a captured run-time value is not a literal"""
+    if isinstance(e, list):
+        return [hide_captured(x, infn) for x in e]
+    if not isinstance(e, tuple) or not e:
+        return e
+    k = e[0]
+    if k in ("fndecl", "fn"):
+        return tuple(hide_captured(x, True) for x in e)
+    w = lambda x: ("call", ("id", "hc"), [x]) if (infn and isinstance(x, tuple) and x and x[0] == "id") else hide_captured(x, infn)
+    if k == "bin" and len(e) == 4 and e[1] in FALLIBLE_RHS:
+        return ("bin", e[1], hide_captured(e[2], infn), w(e[3]))
+    if k == "assign" and len(e) == 4 and e[1] in FALLIBLE_RHS:
+        return ("assign", e[1], hide_captured(e[2], infn), w(e[3]))
+    if k == "at" and len(e) == 3:
+        return ("at", hide_captured(e[1], infn), w(e[2]))
+    if k == "repeat" and len(e) == 3:
+        return ("repeat", hide_captured(e[1], infn), w(e[2]))
+    if k == "tacc":
+        return ("tacc", hide_captured(e[1], infn), e[2])
+    return tuple(hide_captured(x, infn) for x in e)
 
 
 def excused_by_twin(r, broken_model):
